@@ -42,6 +42,10 @@ func parse(str string, l ZitiQlListener, el antlr.ErrorListener, debug bool) {
 	input := antlr.NewInputStream(str)
 	lexer.SetInputStream(input)
 
+	// characters which the lexer can't match are errors too, not something to be silently skipped
+	lexer.RemoveErrorListeners()
+	lexer.AddErrorListener(el)
+
 	p := parserPool.Get().(*ZitiQlParser)
 	defer parserPool.Put(p)
 
@@ -94,18 +98,21 @@ type ErrorListener struct {
 	Errors []ParseError
 }
 
-func (el *ErrorListener) SyntaxError(_ antlr.Recognizer, offendingSymbol interface{}, line, column int, _ string, _ antlr.RecognitionException) {
+func (el *ErrorListener) SyntaxError(_ antlr.Recognizer, offendingSymbol interface{}, line, column int, msg string, _ antlr.RecognitionException) {
 	s, ok := offendingSymbol.(*antlr.CommonToken)
 	symbol := "<unknown>"
-	if ok {
+	if ok && s != nil {
 		symbol = s.GetText()
+	} else if msg != "" {
+		// lexer errors have no offending token, the message names the text which couldn't be matched
+		symbol = msg
 	}
 
 	el.Errors = append(el.Errors, ParseError{
 		Line:    line,
 		Column:  column,
 		Symbol:  symbol,
-		Message: fmt.Sprintf(`Unexpected symbol: "%s" at line: %d column: %d`, s.GetText(), line, column),
+		Message: fmt.Sprintf(`Unexpected symbol: "%s" at line: %d column: %d`, symbol, line, column),
 	})
 }
 
